@@ -181,6 +181,35 @@ pub fn family(tier: Tier) -> Vec<TrainCfg> {
             }
         }
     }
+    // empty feature cells under bare-capture templates: the expansion is the empty string, which is
+    // a legal feature string of its own
+    {
+        let seed = vec![("a", "N,"), ("b", "V,y"), ("ab", ",z"), ("c", "P,"), ("bc", "V,")];
+        let uni = ["%F[1]", "U:%F[0]"];
+        let bi = [("%L[1]", "%R[0]"), ("B:%L[0]", "B:%R?[1]")];
+        let corpus = "a\tN,\nc\tP,\nEOS\nab\t,z\nb\tV,y\nEOS\nbc\tV,\na\tN,\nEOS\n";
+        let users: Vec<Vec<&str>> = vec![vec![], vec!["ca,0,0,0,N,\nbb,0,0,0,,z\n"], vec!["cc,0,0,0,,\n", "ca,1,2,5,N,\n"]];
+        for tmask in 1u32..16 {
+            let unigram: Vec<String> = (0..2).filter(|i| tmask & (1 << i) != 0).map(|i| uni[i].to_string()).collect();
+            let bigram: Vec<(String, String)> = (0..2).filter(|i| tmask & (4 << i) != 0).map(|i| (bi[i].0.to_string(), bi[i].1.to_string())).collect();
+            for (ri, rw) in rewrites.iter().enumerate().take(2) {
+                for (usi, us) in users.iter().enumerate() {
+                    out.push(TrainCfg {
+                        name: format!("emptycell/unk1/chardef0/templates{tmask:04b}/rewrite{ri}/corpus-e/user{usi}"),
+                        seed: seed.iter().map(|(a, b)| (a.to_string(), b.to_string())).collect(),
+                        unk: unks[0].1.iter().map(|(a, b)| (a.to_string(), b.to_string())).collect(),
+                        cats: vec!["DEFAULT".into(), "SPACE".into(), "AL".into(), "KJ".into()],
+                        chardef: CHARDEFS[0].to_string(),
+                        unigram_templates: unigram.clone(),
+                        bigram_templates: bigram.clone(),
+                        rewrite: rw.to_string(),
+                        corpus: corpus.to_string(),
+                        users: us.iter().map(|s| s.to_string()).collect(),
+                    });
+                }
+            }
+        }
+    }
     // one feature.def with nine bigram templates (more than one SIMD block in the raw connector)
     let nine: Vec<(String, String)> = (0..9).map(|i| (format!("T{i}:%L[{}]", i % 2), format!("T{i}:%R[{}]", (i + 1) % 2))).collect();
     let n0 = out.len();
@@ -742,13 +771,23 @@ fn conn_table(d: &vibrato::Dictionary) -> Result<((usize, usize), Vec<i32>), Str
 
 /// C16 oracle on one model state.
 pub fn check_c16(cfg: &TrainCfg, m: &mut Model, kf: &[KnownFinding], st: &mut Stats, tag: &str) -> bool {
+    check_c16_ordered(cfg, m, kf, st, tag, false)
+}
+
+/// `bigram_first`: write_bigram_details is called before write_dictionary.
+pub fn check_c16_ordered(cfg: &TrainCfg, m: &mut Model, kf: &[KnownFinding], st: &mut Stats, tag: &str, bigram_first: bool) -> bool {
     let k = cfg.bigram_templates.len();
     if k == 0 {
         st.count("models_without_bigram_templates (no bigram dictionary)");
         return true;
     }
     let case = |extra: serde_json::Value| json!({"kind": "trained_model", "config": cfg.describe(), "state": tag, "details": extra});
-    let (gr, br) = (generate(m), gen_bigram(m));
+    let (gr, br) = if bigram_first {
+        let b = gen_bigram(m);
+        (generate(m), b)
+    } else {
+        (generate(m), gen_bigram(m))
+    };
     if let (Err(e), _) | (_, Err(e)) = (&gr, &br) {
         let raw_bytes = m.verif_raw_model_bytes();
         let no_bigram_weights = bincode::decode_from_slice::<RawMirror, _>(&raw_bytes, bcfg()).map_or(false, |x| x.0.bwi.is_empty());
@@ -901,13 +940,34 @@ pub fn check_c16(cfg: &TrainCfg, m: &mut Model, kf: &[KnownFinding], st: &mut St
                 let f = l.split('\t').next().unwrap_or("");
                 f.split('/').any(|x| x == "*")
             });
+            // K8: a bigram feature whose expansion is the empty string is written exactly like the
+            // reserved BOS/EOS feature (empty cell in bigram.left/right, empty side in bigram.cost)
+            let rs: HashMap<u32, String> = m.verif_feature_ids(Kind::Right).into_iter().map(|(s, i)| (i, s)).collect();
+            let ls: HashMap<u32, String> = m.verif_feature_ids(Kind::Left).into_iter().map(|(s, i)| (i, s)).collect();
+            let raw_bytes = m.verif_raw_model_bytes();
+            let raw = bincode::decode_from_slice::<RawMirror, _>(&raw_bytes, bcfg()).ok().map(|x| x.0);
+            let exp = expected_of(&raw_bytes).ok();
+            let empty_named = match (&raw, &exp) {
+                (Some(raw), Some(exp)) => {
+                    let used_l = exp.merged.right_conn_to_left_feats.iter().flatten().flatten().any(|id| ls.get(&id.get()).map_or(false, |s| s.is_empty()));
+                    let used_r = exp.merged.left_conn_to_right_feats.iter().flatten().flatten().any(|id| rs.get(&id.get()).map_or(false, |s| s.is_empty()));
+                    let weighted = raw.bwi.iter().enumerate().any(|(lf, v)| {
+                        v.iter().any(|(rf, _)| (lf != 0 && ls.get(&(lf as u32)).map_or(false, |s| s.is_empty())) || (*rf != 0 && rs.get(rf).map_or(false, |s| s.is_empty())))
+                    });
+                    used_l || used_r || weighted
+                }
+                _ => false,
+            };
             // K5: a connection id without any feature (virtual edge) is written as an empty row,
             // which reads back as the BOS/EOS feature
             let empty_row = bg.left.lines().chain(bg.right.lines()).any(|l| l.ends_with('\t'));
-            // K3 explains the discrepancy completely iff (B) the real table equals the string-level
-            // sum in which the placeholder '*' is an ordinary feature named '*', and (A) the sum
-            // in which the placeholder never matches is within K+1 of matrix.def.
-            let k3_exact = star_listed && {
+            // K3 / K8 explain the discrepancy completely iff (B) the real table equals the
+            // string-level sum over the emitted files read literally ('*' in a listed pair is an
+            // ordinary feature named '*', an empty string is the BOS/EOS feature), and (A) the sum
+            // over the model's TRUE tuples and TRUE feature-pair weights (taken from the raw model,
+            // where the placeholder, the literal '*', the BOS/EOS feature and a feature named ""
+            // are all distinct) is within K+1 of matrix.def.
+            let k38_exact = (star_listed || empty_named) && {
                 let parse_side = |text: &str| -> Vec<Vec<String>> { text.lines().map(|l| csv_cells(l.split_once('\t').map_or("", |x| x.1))).collect() };
                 let model = crate::refmodel::Bigram {
                     right: parse_side(&bg.right),
@@ -918,33 +978,41 @@ pub fn check_c16(cfg: &TrainCfg, m: &mut Model, kf: &[KnownFinding], st: &mut St
                         Some((a.to_string(), b.to_string(), c.parse().ok()?))
                     }).collect(),
                 };
-                // (A) the true tuples: which '*' cells are placeholders and which are the literal
-                // feature '*' is known from the merged model and the interned strings
-                let a_table = {
-                    let exp = expected_of(&m.verif_raw_model_bytes()).ok();
-                    let rs: HashMap<u32, String> = m.verif_feature_ids(Kind::Right).into_iter().map(|(s, i)| (i, s)).collect();
-                    let ls: HashMap<u32, String> = m.verif_feature_ids(Kind::Left).into_iter().map(|(s, i)| (i, s)).collect();
-                    match exp {
-                        None => vec![],
-                        Some(exp) => {
-                            let conv = |rows: &Vec<Vec<Option<NonZeroU32>>>, names: &HashMap<u32, String>| -> Vec<Vec<String>> {
-                                rows.iter().map(|r| r.iter().map(|c| match c {
-                                    None => "*".to_string(),
-                                    Some(id) => names.get(&id.get()).map(|s| if s == "*" { "\u{1}STAR".to_string() } else { s.clone() }).unwrap_or_else(|| "*".to_string()),
-                                }).collect()).collect()
-                            };
-                            let truth = crate::refmodel::Bigram {
-                                // bigram.right lists, per right id, the features of the left word (left feature ids)
-                                right: conv(&exp.merged.right_conn_to_left_feats, &ls),
-                                left: conv(&exp.merged.left_conn_to_right_feats, &rs),
-                                cost: model.cost.iter().map(|c| {
-                                    let ren = |s: &String| if s == "*" { "\u{1}STAR".to_string() } else { s.clone() };
-                                    (ren(&c.0), ren(&c.1), c.2)
-                                }).collect(),
-                            };
-                            truth.table().2
+                let a_table = match (&raw, &exp) {
+                    (Some(raw), Some(exp)) => {
+                        let name = |names: &HashMap<u32, String>, id: u32| -> String {
+                            match names.get(&id).map(|s| s.as_str()) {
+                                None => "*".to_string(),
+                                Some("*") => "\u{1}STAR".to_string(),
+                                Some("") => "\u{1}EMPTY".to_string(),
+                                Some(s) => s.to_string(),
+                            }
+                        };
+                        let conv = |rows: &Vec<Vec<Option<NonZeroU32>>>, names: &HashMap<u32, String>| -> Vec<Vec<String>> {
+                            rows.iter().map(|r| r.iter().map(|c| match c {
+                                None => "*".to_string(),
+                                Some(id) => name(names, id.get()),
+                            }).collect()).collect()
+                        };
+                        let scale = 32767.0 / exp.max_abs;
+                        let mut cost = vec![];
+                        for (lf, v) in raw.bwi.iter().enumerate() {
+                            for (rf, widx) in v {
+                                let a = if lf == 0 { String::new() } else { name(&ls, lf as u32) };
+                                let b = if *rf == 0 { String::new() } else { name(&rs, *rf) };
+                                let w = raw.weights[*widx as usize];
+                                cost.push((a, b, (-w * scale) as i32));
+                            }
                         }
+                        let truth = crate::refmodel::Bigram {
+                            // bigram.right lists, per right id, the features of the left word (left feature ids)
+                            right: conv(&exp.merged.right_conn_to_left_feats, &ls),
+                            left: conv(&exp.merged.left_conn_to_right_feats, &rs),
+                            cost,
+                        };
+                        truth.table().2
                     }
+                    _ => vec![],
                 };
                 let mut quirk = model.clone();
                 let ren = |s: &mut String| if s == "*" { *s = "\u{1}STAR".to_string() };
@@ -953,9 +1021,12 @@ pub fn check_c16(cfg: &TrainCfg, m: &mut Model, kf: &[KnownFinding], st: &mut St
                 quirk.cost.iter_mut().for_each(|c| { ren(&mut c.0); ren(&mut c.1); });
                 // ragged rows stay "absent" (no feature) in both variants
                 let (_, _, b_table) = quirk.table();
-                b_table == bt && a_table.iter().zip(&mt).all(|(a, m)| (i64::from(*a) - i64::from(*m)).abs() <= k as i64 + 1)
+                b_table == bt && a_table.len() == mt.len() && a_table.iter().zip(&mt).all(|(a, m)| (i64::from(*a) - i64::from(*m)).abs() <= k as i64 + 1)
             };
-            if k3_exact && is_open(kf, "C16", "K3") {
+            if k38_exact && empty_named && is_open(kf, "C16", "K8") {
+                st.known("K8", "a bigram feature that expands to the empty string is written like the reserved BOS/EOS feature (empty cell, empty side of a bigram.cost pair), so the compiled bigram dictionary adds BOS/EOS costs to ordinary pairs and vice versa");
+                st.count("k8_explained");
+            } else if k38_exact && !empty_named && is_open(kf, "C16", "K3") {
                 st.known("K3", "a bigram feature that expands to the literal '*' is listed in bigram.cost and then matches the '*' placeholder of every connection id");
                 st.count("k3_explained");
             } else if empty_row && is_open(kf, "C16", "K5") {
@@ -1080,6 +1151,26 @@ pub fn run_family(which: Which, tier: Tier, st: &mut Stats, kf: &[KnownFinding])
             Which::C16 => check_c16(cfg, &mut m, kf, st, "trained"),
             Which::C18 => check_c18_dict(cfg, &mut m, st),
         };
+        // C16: the same configuration with the user lexicons read AFTER a first export, and the
+        // bigram files then written BEFORE the dictionary files (any order of the two writers must
+        // describe the same model)
+        if ok && !cfg.users.is_empty() && which == Which::C16 && (tier == Tier::Thorough || i % 2 == 0) {
+            let mut bare = cfg.clone();
+            bare.users.clear();
+            if let Ok(mut m0) = train(&bare, max_iter) {
+                let exported = generate(&mut m0).is_ok() && gen_bigram(&mut m0).is_ok();
+                let mut good = exported;
+                for u in &cfg.users {
+                    good = good && matches!(guard(|| m0.read_user_lexicon(u.as_bytes())), Ok(Ok(())));
+                }
+                if good {
+                    st.states += 1;
+                    st.transitions += 1;
+                    st.count("models_exported_before_reading_user_lexicons");
+                    ok = check_c16_ordered(cfg, &mut m0, kf, st, "exported, then user lexicons read, bigram files written first", true);
+                }
+            }
+        }
         // the same configuration with the user lexicons read AFTER a write_model/read_model round
         // trip of the trained model (ids handed out by the reloaded feature tables)
         if ok && !cfg.users.is_empty() && which != Which::C16 {
@@ -1161,9 +1252,9 @@ pub fn run_c16(tier: Tier) -> i32 {
     let kf = load_known_findings();
     let mut st = Stats::default();
     run_family(Which::C16, tier, &mut st, &kf);
-    rep.rule = "state = (training configuration of the C14 family, really trained; then injected weight vectors); the emitted (lex, bigram.left/right/cost) files are compiled with the raw and the dual connector and (lex, matrix.def) with the matrix connector; for every id pair incl. row/column 0 the costs must differ by at most K+1, and the dimensions must agree; the compiled raw/dual dictionary is then id-mapped (rotation of both sides) and must agree, pair by pair, with the equally permuted matrix.def; distinct = distinct (configuration, weight count)".into();
+    rep.rule = "state = (training configuration of the C14 family, really trained; then injected weight vectors); the emitted (lex, bigram.left/right/cost) files are compiled with the raw and the dual connector and (lex, matrix.def) with the matrix connector; for every id pair incl. row/column 0 the costs must differ by at most K+1, and the dimensions must agree; the compiled raw/dual dictionary is then id-mapped (rotation of both sides) and must agree, pair by pair, with the equally permuted matrix.def; configurations with user lexicons are also run as (train without them, export, read the user lexicons, write_bigram_details BEFORE write_dictionary); distinct = distinct (configuration, weight count)".into();
     rep.bounds = json!({"max_iter": tier.pick(5, 30), "injected_weights": tier.pick(3, 5), "K": "0-3"});
-    rep.finish(st, &["models_trained", "raw_dictionaries_compared", "dual_dictionaries_compared", "mapped_bigram_dictionaries_compared", "id_pairs_with_nonzero_matrix_cost", "weight_vectors_injected"])
+    rep.finish(st, &["models_trained", "raw_dictionaries_compared", "dual_dictionaries_compared", "mapped_bigram_dictionaries_compared", "models_exported_before_reading_user_lexicons", "id_pairs_with_nonzero_matrix_cost", "weight_vectors_injected"])
 }
 
 /// C17 at the dictionary level: configurations whose rewrite.def has sections with and without
@@ -1215,22 +1306,50 @@ enum MOp {
 const USER_MENU: [&str; 3] = ["ac,0,0,0,N,x\nca,0,0,0,V,new\n", "\"x,y\",1,2,-5,Q,q\nbb,0,0,0,V,y\n", "cc,1,1,77,Z,q9\n"];
 
 #[derive(PartialEq, Clone, Debug)]
-struct Outputs {
+struct DictOut {
     lex: String,
     matrix: String,
     unk: String,
     user: String,
+}
+
+#[derive(PartialEq, Clone, Debug)]
+struct BgOut {
     left: String,
     right: String,
     cost: Vec<String>,
 }
 
-fn outputs(m: &mut Model) -> Result<Outputs, String> {
+#[derive(PartialEq, Clone, Debug)]
+struct Outputs {
+    dict: DictOut,
+    bg: BgOut,
+}
+
+fn dict_out(m: &mut Model) -> Result<DictOut, String> {
     let g = generate(m)?;
+    Ok(DictOut { lex: g.lex, matrix: g.matrix, unk: g.unk, user: g.user })
+}
+
+fn bg_out(m: &mut Model) -> Result<BgOut, String> {
     let b = gen_bigram(m)?;
     let mut cost: Vec<String> = b.cost.lines().map(|s| s.to_string()).collect();
     cost.sort();
-    Ok(Outputs { lex: g.lex, matrix: g.matrix, unk: g.unk, user: g.user, left: b.left, right: b.right, cost })
+    Ok(BgOut { left: b.left, right: b.right, cost })
+}
+
+fn outputs(m: &mut Model) -> Result<Outputs, String> {
+    Ok(Outputs { dict: dict_out(m)?, bg: bg_out(m)? })
+}
+
+/// The user lexicons of the C15 operation alphabet (per configuration: the empty-cell family
+/// gets rows whose feature cells are empty).
+fn user_menu(cfg: &TrainCfg) -> [&'static str; 3] {
+    if cfg.name.starts_with("emptycell") {
+        ["ca,0,0,0,N,\nbb,0,0,0,,z\n", USER_MENU[1], "cc,0,0,0,,\n"]
+    } else {
+        USER_MENU
+    }
 }
 
 fn roundtrip(m: &Model) -> Result<Model, String> {
@@ -1254,7 +1373,8 @@ struct MState {
     t: Option<Model>,
     users_before_split: bool,
     users_added_to_twin: bool,
-    last_a: Option<Outputs>,
+    last_dict: Option<DictOut>,
+    last_bg: Option<BgOut>,
 }
 
 impl MState {
@@ -1265,11 +1385,11 @@ impl MState {
             None => None,
             Some(t) => Some(t.verif_twin().map_err(|e| e.to_string())?),
         };
-        Ok(MState { a, t, users_before_split: self.users_before_split, users_added_to_twin: self.users_added_to_twin, last_a: self.last_a.clone() })
+        Ok(MState { a, t, users_before_split: self.users_before_split, users_added_to_twin: self.users_added_to_twin, last_dict: self.last_dict.clone(), last_bg: self.last_bg.clone() })
     }
 
     /// Applies one operation to both models in lock-step; Err((class, what)) on an oracle failure.
-    fn step(&mut self, op: MOp, k: usize, st: &mut Stats) -> Result<(), (String, String)> {
+    fn step(&mut self, op: MOp, k: usize, menu: &[&str; 3], st: &mut Stats) -> Result<(), (String, String)> {
         match op {
             MOp::WriteRead => {
                 if self.t.is_some() && self.users_added_to_twin {
@@ -1290,25 +1410,27 @@ impl MState {
                     self.users_added_to_twin = true;
                 }
                 let a = &mut self.a;
-                let r1 = guard(|| a.read_user_lexicon(USER_MENU[i].as_bytes()));
-                let r2 = self.t.as_mut().map(|t| guard(|| t.read_user_lexicon(USER_MENU[i].as_bytes())));
+                let r1 = guard(|| a.read_user_lexicon(menu[i].as_bytes()));
+                let r2 = self.t.as_mut().map(|t| guard(|| t.read_user_lexicon(menu[i].as_bytes())));
                 if !matches!(r1, Ok(Ok(()))) || r2.map_or(false, |r| !matches!(r, Ok(Ok(())))) {
                     return Err(("read_user_lexicon-fails".into(), format!("step {k}")));
                 }
-                self.last_a = None;
+                self.last_dict = None;
+                self.last_bg = None;
                 st.count("user_lexicons_added");
             }
-            MOp::Generate | MOp::GenerateBigram => {
-                let oa = outputs(&mut self.a).map_err(|e| ("generation-fails".to_string(), format!("step {k}: {e}")))?;
-                if let Some(prev) = &self.last_a {
+            MOp::Generate => {
+                // write_dictionary only
+                let oa = dict_out(&mut self.a).map_err(|e| ("generation-fails".to_string(), format!("step {k}: {e}")))?;
+                if let Some(prev) = &self.last_dict {
                     if *prev != oa {
-                        return Err(("generating-twice-differs".into(), format!("step {k}: generating again from the same model gives different files")));
+                        return Err(("generating-twice-differs".into(), format!("step {k}: write_dictionary again from the same model gives different files")));
                     }
                     st.count("repeated_generations_compared");
                 }
-                self.last_a = Some(oa.clone());
+                self.last_dict = Some(oa.clone());
                 if let Some(tm) = self.t.as_mut() {
-                    let ot = outputs(tm).map_err(|e| ("generation-from-reloaded-model-fails".to_string(), format!("step {k}: {e}")))?;
+                    let ot = dict_out(tm).map_err(|e| ("generation-from-reloaded-model-fails".to_string(), format!("step {k}: {e}")))?;
                     st.count("reloaded_vs_in_memory_generations_compared");
                     let mut diff = vec![];
                     if oa.lex != ot.lex {
@@ -1320,6 +1442,28 @@ impl MState {
                     if oa.unk != ot.unk {
                         diff.push("unk.def");
                     }
+                    if !self.users_before_split && oa.user != ot.user {
+                        diff.push("user.csv");
+                    }
+                    if !diff.is_empty() {
+                        return Err((format!("reloaded-model-generates-different-{}", diff[0]), format!("step {k}: files differ between the in-memory model and its reloaded twin: {:?}", diff)));
+                    }
+                }
+            }
+            MOp::GenerateBigram => {
+                // write_bigram_details only (it may come before or after write_dictionary)
+                let oa = bg_out(&mut self.a).map_err(|e| ("generation-fails".to_string(), format!("step {k}: {e}")))?;
+                if let Some(prev) = &self.last_bg {
+                    if *prev != oa {
+                        return Err(("generating-twice-differs".into(), format!("step {k}: write_bigram_details again from the same model gives different files")));
+                    }
+                    st.count("repeated_bigram_generations_compared");
+                }
+                self.last_bg = Some(oa.clone());
+                if let Some(tm) = self.t.as_mut() {
+                    let ot = bg_out(tm).map_err(|e| ("generation-from-reloaded-model-fails".to_string(), format!("step {k}: {e}")))?;
+                    st.count("reloaded_vs_in_memory_bigram_generations_compared");
+                    let mut diff = vec![];
                     if oa.left != ot.left {
                         diff.push("bigram.left");
                     }
@@ -1329,12 +1473,21 @@ impl MState {
                     if oa.cost != ot.cost {
                         diff.push("bigram.cost");
                     }
-                    if !self.users_before_split && oa.user != ot.user {
-                        diff.push("user.csv");
-                    }
                     if !diff.is_empty() {
                         return Err((format!("reloaded-model-generates-different-{}", diff[0]), format!("step {k}: files differ between the in-memory model and its reloaded twin: {:?}", diff)));
                     }
+                }
+            }
+        }
+        // both halves present for the current model state: they must describe the same id spaces
+        if let (Some(d), Some(b)) = (&self.last_dict, &self.last_bg) {
+            let hdr: Vec<usize> = d.matrix.lines().next().unwrap_or("").split(' ').filter_map(|x| x.parse().ok()).collect();
+            let max_id = |t: &str| t.lines().filter_map(|l| l.split('\t').next()?.parse::<usize>().ok()).max().map_or(1, |m| m + 1);
+            if hdr.len() == 2 && !(b.left.is_empty() && b.right.is_empty()) {
+                st.count("dictionary_and_bigram_id_spaces_compared");
+                // bigram.right lists the right ids (matrix rows), bigram.left the left ids
+                if hdr[0] != max_id(&b.right) || hdr[1] != max_id(&b.left) {
+                    return Err(("bigram-files-and-matrix-describe-different-id-spaces".into(), format!("step {k}: matrix.def header {:?} but bigram.right lists {} and bigram.left {} ids", hdr, max_id(&b.right), max_id(&b.left))));
                 }
             }
         }
@@ -1352,7 +1505,8 @@ fn c15_dfs(cfg: &TrainCfg, ci: usize, node: &MState, hist: &mut Vec<MOp>, ops: &
             replay: json!({"kind": "model_history", "config": cfg.describe(), "history": format!("{hist:?}")}),
         });
     };
-    let menu: Vec<MOp> = if hist.len() < depth { ops.to_vec() } else { vec![MOp::Generate] };
+    let menu: Vec<MOp> = if hist.len() < depth { ops.to_vec() } else { vec![MOp::Generate, MOp::GenerateBigram] };
+    let umenu = user_menu(cfg);
     let leaf = hist.len() >= depth;
     for op in menu {
         let mut child = match node.copy() {
@@ -1365,7 +1519,7 @@ fn c15_dfs(cfg: &TrainCfg, ci: usize, node: &MState, hist: &mut Vec<MOp>, ops: &
         st.states += 1;
         st.transitions += 1;
         hist.push(op);
-        match child.step(op, hist.len() - 1, st) {
+        match child.step(op, hist.len() - 1, &umenu, st) {
             Err((class, what)) => {
                 // K6: rucrf's merge() panics on a model whose bigram weight table is empty
                 let k6 = class.starts_with("generation") && what.contains("rucrf") && what.contains("model.rs") && {
@@ -1380,7 +1534,7 @@ fn c15_dfs(cfg: &TrainCfg, ci: usize, node: &MState, hist: &mut Vec<MOp>, ops: &
                 }
             }
             Ok(()) => {
-                st.outcome(&(ci, child.last_a.as_ref().map(|o| (o.lex.clone(), o.matrix.clone(), o.user.clone()))));
+                st.outcome(&(ci, child.last_dict.as_ref().map(|o| (o.lex.clone(), o.matrix.clone(), o.user.clone())), child.last_bg.as_ref().map(|o| o.left.clone())));
                 if !leaf {
                     c15_dfs(cfg, ci, &child, hist, ops, depth, k6_open, st);
                 }
@@ -1432,10 +1586,11 @@ pub fn run_c15(tier: Tier) -> i32 {
         }
         st.count("models");
         {
-            let ui = ci % USER_MENU.len();
+            let umenu = user_menu(cfg);
+            let ui = ci % umenu.len();
             let mut m2 = m.verif_twin().unwrap();
-            let r1 = guard(|| c.read_user_lexicon(USER_MENU[ui].as_bytes()));
-            let r2 = guard(|| m2.read_user_lexicon(USER_MENU[ui].as_bytes()));
+            let r1 = guard(|| c.read_user_lexicon(umenu[ui].as_bytes()));
+            let r2 = guard(|| m2.read_user_lexicon(umenu[ui].as_bytes()));
             bound &= matches!(r1, Ok(Ok(()))) == matches!(r2, Ok(Ok(())));
             bound &= outputs(&mut c) == outputs(&mut m2);
             let mut c3 = c.verif_twin().unwrap();
@@ -1446,14 +1601,14 @@ pub fn run_c15(tier: Tier) -> i32 {
             }
             st.count("copy_hook_bound_to_original");
         }
-        let root = MState { a: m, t: None, users_before_split: false, users_added_to_twin: false, last_a: None };
+        let root = MState { a: m, t: None, users_before_split: false, users_added_to_twin: false, last_dict: None, last_bg: None };
         c15_dfs(cfg, ci, &root, &mut vec![], &ops, depth, is_open(&kf, "C15", "K6"), st);
         if ci % 13 == 0 {
             st.sample(json!({"config": cfg.name, "history_depth": depth, "operations": format!("{ops:?}")}));
         }
     });
-    rep.rule = format!("state = (really trained model of a slice of the C14 family, history of <= {depth} ops over {{generate, generate-bigram, write_model->read_model, add user lexicon U1, U2, U3}} followed by a final generation); the history tree is explored depth-first, each node reached by copying its parent's pair of models field by field (hook verif_twin, not the model codec; per model the copy is bound to the code by driving the original and its copy through the same operations and comparing every output); from the first round trip on the in-memory model and its reloaded twin run in lock-step and every generation compares lex/matrix/unk/user/bigram.left/bigram.right bytes and the multiset of bigram.cost lines; generating twice from the same model must give identical files; distinct = distinct (model, final files)");
+    rep.rule = format!("state = (really trained model of a slice of the C14 family, history of <= {depth} ops over {{write_dictionary, write_bigram_details (separate operations, either order), write_model->read_model, add user lexicon U1, U2, U3}} followed by a final write_dictionary / write_bigram_details); the history tree is explored depth-first, each node reached by copying its parent's pair of models field by field (hook verif_twin, not the model codec; per model the copy is bound to the code by driving the original and its copy through the same operations and comparing every output); from the first round trip on the in-memory model and its reloaded twin run in lock-step and every generation compares lex/matrix/unk/user/bigram.left/bigram.right bytes and the multiset of bigram.cost lines; generating twice from the same model must give identical files; distinct = distinct (model, final files)");
     rep.bounds = json!({"history_depth": depth, "models": fam.len(), "max_iter": max_iter});
     rep.assumptions = vec!["user lexicons added before a round trip are session state that write_model does not persist: for such histories user.csv is not compared".into()];
-    rep.finish(st, &["models", "copy_hook_bound_to_original", "roundtrips", "user_lexicons_added", "repeated_generations_compared", "reloaded_vs_in_memory_generations_compared"])
+    rep.finish(st, &["models", "copy_hook_bound_to_original", "roundtrips", "user_lexicons_added", "repeated_generations_compared", "repeated_bigram_generations_compared", "reloaded_vs_in_memory_generations_compared", "reloaded_vs_in_memory_bigram_generations_compared", "dictionary_and_bigram_id_spaces_compared"])
 }
